@@ -7,8 +7,6 @@ import (
 	"sync/atomic"
 	"time"
 
-	clocktesting "k8s.io/utils/clock/testing"
-
 	"github.com/dapr/kit/cron"
 )
 
@@ -80,8 +78,7 @@ func runC05(s *sess) map[string]any {
 func cronRound(s *sess, g *group, round int, t0 time.Time) {
 	variant := round + s.seed
 	lockstep := variant%2 == 0
-	clk := clocktesting.NewFakeClock(t0)
-	defer nudge(clk)()
+	clk := newNBClock(t0) // timers that never block the clock and fire at once when already due (nbclock_test.go)
 	c := cron.New(cron.WithSeconds(), cron.WithLocation(time.UTC), cron.WithClock(clk), cron.WithLogger(cron.DiscardLogger))
 	release := make(chan struct{})
 	var inside atomic.Int64
